@@ -23,11 +23,18 @@ CLASSES = dict(Storage=Storage, SimpleContract=SimpleContract, Contract=Contract
 DATE_KEYS = ("start", "end")
 
 
+ZONE = [None]  # zone of the scenario's grid: aware ISO strings (given with an offset only
+              # where the wall-clock time is ambiguous) are converted to it, as a user would
+
+
 def ts(s, tz=None):
     if s is None:
         return None
     t = pd.Timestamp(s)
-    if tz is not None and t.tzinfo is None:
+    if t.tzinfo is not None:
+        if ZONE[0]:
+            t = t.tz_convert(ZONE[0])
+    elif tz is not None:
         t = t.tz_localize(tz)
     return t
 
@@ -100,6 +107,7 @@ def build_asset(a, nodes, tz=None):
 def build(scn):
     """-> (portfolio, timegrid, prices)"""
     tz = scn.get("date_tz")
+    ZONE[0] = scn["grid"].get("tz")
     nodes = {}
     assets = [build_asset(a, nodes, tz) for a in scn["assets"]]
     tg = build_grid(scn["grid"])
